@@ -106,6 +106,15 @@ func (f *Func) Type() types.Type {
 		f.Typ = types.NewPointer(f.Sig)
 		f.Typ.AddrSpace = f.AddrSpace
 	}
+	if f.Typ.AddrSpace != f.AddrSpace {
+		// The address space was assigned after the type was cached (the
+		// constructors take no address space): the type follows the field. The
+		// cache is left alone, since Type is called while printing, possibly
+		// from several goroutines.
+		typ := types.NewPointer(f.Typ.ElemType)
+		typ.AddrSpace = f.AddrSpace
+		return typ
+	}
 	return f.Typ
 }
 
